@@ -470,6 +470,10 @@ def comparisonY (F : OpFacts) (op : CmpOp) (x y : Opnd) : Res Opnd := do
   let b ← if a then pure true else assignableToY F t1 t0 y.rv
   if !(a || b) then .err
   if !t0.isIface && !t1.isIface && !t0.isNil && !t1.isNil && t0.isUntyped == t1.isUntyped && t0 != t1 && !typeDefinedT t0 t1 then .err
+  -- the universe scope holds two type objects for uint8, `uint8` and `byte` (string indexing yields `byte`, and so does a
+  -- variable defined from it); `typeDefined` compares pointers, so `type N uint8` is "defined from" the first only.
+  -- Which object an operand carries is not tracked: a defined type over uint8 against uint8 is outside the description.
+  if t0 != t1 && typeDefinedT t0 t1 && (t0 == .s (.basic .uint8) || t1 == .s (.basic .uint8)) then .abstain
   let ok ← (match op with
     | .eq | .ne => do
       let c0 ← (if t0.isNil then pure true else match t0.rtype? with | some r => pure r.comparable | none => pure false)
